@@ -28,3 +28,29 @@ TEXT["C06"] = dict(
     note="Trusts go/parser extraction of the doc comment, netip.Prefix.Contains, and the merged-range form of the list (cross-checked against the naive form at start-up).",
     technique="runtime differential monitor against the documented CIDR lists; exhaustive IPv4 sweep, boundary-directed IPv6 probes",
 )
+
+TEXT["C11"] = dict(
+    level="Abstract-model runtime monitoring: every operation history up to the stated depth (sets: 5/6 operations over Add/Delete x 4 values, Clear, two kinds of Clone, from 3 initial contents; ring: 14/18 operations over Push/Clear for capacities 0..6) is executed on the real containers while a Go map / push-log model is advanced in lock-step, and ALL queries are compared after every operation, including early-terminating ranges and the frozen other side of every Clone. The enumerated history space is swept completely; longer histories are not, hence exploration.",
+    note="Trusts the 30-line models in harness/c11; only documented nil-receiver behaviour is demanded.",
+    technique="runtime shadow-model monitor over bounded-exhaustive operation histories",
+)
+TEXT["C13"] = dict(
+    level="Literal-definition runtime monitoring: ContainsFold and SplitTrimmed are compared with the definitions in the statement on exhaustive (s, sub) pairs over every rune of every simple-fold orbit with more than two members (derived from unicode.SimpleFold at run time), on needles inserted as random case variants into random haystacks, and on all strings up to length 6/7 over a whitespace/separator alphabet x 18 separators. Exploration.",
+    note="Trusts strings.EqualFold / unicode.SimpleFold / strings.Split / TrimSpace of the pinned stdlib; the two forms of the ContainsFold reference are cross-checked on ASCII.",
+    technique="runtime differential monitor against the literal reference definitions over fold-orbit alphabets",
+)
+TEXT["C14"] = dict(
+    level="Round-trip and differential runtime monitoring of the four codecs over boundary grids, exhaustive second/minute ranges, near-miss texts and a structured URL generator whose texts need every kind of JSON escaping; each encode->decode result is compared with the original (or, for Duration.String and Prefix, with the stdlib-derived reference). Exploration.",
+    note="Trusts time.Duration.String, time.ParseDuration, netip.ParsePrefix/ParseAddr, net/url and encoding/json of the pinned stdlib. One listed finding (URL texts that are not valid UTF-8 cannot pass through a JSON string) is reported as KNOWN-FINDING; everything else is a violation.",
+    technique="runtime round-trip monitors and stdlib differential over generated values and texts",
+)
+TEXT["C15"] = dict(
+    level="Online conservation monitoring: LimitReader and TruncatedWriter wrap a script-driven reader/writer that itself asserts, at every underlying call, that no more than the remaining limit is requested, while the caller side asserts pass-through of (k, err), prefix delivery, the (0, *LimitError{n}) regime and exact truncated forwarding. All histories over stream length 0..6 x limit 0..7 x 4/5 buffer sizes x 4/5 reader behaviours (and the writer analogue) are enumerated, plus deep random runs. Exploration.",
+    note="Wrapped readers stay inside the io.Reader contract.",
+    technique="runtime conservation monitor (hooked wrapped reader/writer) over bounded-exhaustive fault scripts",
+)
+TEXT["C16"] = dict(
+    level="Two-run non-interference runtime monitoring: for each generated base URL the redaction is run once per credential of a 15-element pool and all outputs must coincide; field equality, input immutability and pointer identity for nil userinfo are asserted on every run; the error-rewriting function is observed on five kinds of error values. Exploration over generated URLs.",
+    note="Trusts url.URL.String and reflect.DeepEqual.",
+    technique="runtime two-run (pairwise) comparison monitor",
+)
